@@ -240,11 +240,8 @@ func makeInvalid(t *rapid.T, g *Node, blk *types.Block, p *Produced, pstate *typ
 		// everything is right except that the header claims a number beyond parent+1
 		bad.Header.BlockNo += uint64(rapid.IntRange(1, 3).Draw(t, "gap"))
 	case "number-low":
-		// the header claims the parent's own number (or less)
-		if bad.Header.BlockNo < 2 {
-			return nil
-		}
-		bad.Header.BlockNo -= uint64(rapid.IntRange(1, int(bad.Header.BlockNo)-1).Draw(t, "low"))
+		// the header claims the parent's own number or less, down to 0 (the genesis block's number)
+		bad.Header.BlockNo -= uint64(rapid.IntRange(1, int(bad.Header.BlockNo)).Draw(t, "low"))
 	case "forged-sig", "forged-chainid", "forged-sig-transplant":
 		i := rapid.IntRange(0, len(bad.Body.Txs)-1).Draw(t, "forgeIdx")
 		return ForgeTx(blk, p, i, kind)
